@@ -25,6 +25,8 @@ def check(repo: Repo, rep, tier):
     reeval_fresh(repo, rep)
     clone_def(repo, rep)
     index_bound(repo, rep)
+    state_global(repo, rep)
+    site_keyed_store(repo, rep)
 
 
 def wrapper_frames(repo: Repo, f: Func):
@@ -524,3 +526,72 @@ def index_bound(repo: Repo, rep):
                     construct=f"{f.qualname}:{norm(sub)}",
                 )
     rep.floor("R-INDEX-BOUND", "runtime-indexed AST child lists", n, 1)
+
+
+def state_global(repo: Repo, rep):
+    rep.rule(
+        "R-STATE-GLOBAL",
+        "the session's State is process-wide: state() returns the module-level name that enter/leave_snapshot_context rebind (a plain global), and "
+        "_global_state.py uses no per-thread / per-context store (contextvars, threading.local).  A snapshot() evaluated in a worker thread must find the "
+        "same table of call sites as the main thread; with a context-local store the evaluations of one call site in other threads are neither recorded "
+        "nor aggregated (trim then deletes members that were only seen there)",
+    )
+    m = repo.module("_global_state.py")
+    st = repo.func("_global_state.py::state")
+    bad = []
+    for x in ast.walk(m.tree):
+        if isinstance(x, ast.ImportFrom) and x.module in ("contextvars", "threading"):
+            bad.append(x)
+        if isinstance(x, ast.Import) and any(a.name in ("contextvars", "threading") for a in x.names):
+            bad.append(x)
+        if isinstance(x, ast.Call) and norm(x.func).split(".")[-1] in ("ContextVar", "local") and ("ContextVar" in norm(x.func) or "threading" in norm(x.func)):
+            bad.append(x)
+    rets = [r for r in body_nodes(st.node) if isinstance(r, ast.Return) and r.value is not None]
+    plain = rets and all(isinstance(r.value, ast.Name) and r.value.id in m.globals_assigned for r in rets)
+    if bad:
+        rep.violation("R-STATE-GLOBAL", st, bad[0], f"_global_state.py keeps the current State in a per-thread / per-context store (`{short(bad[0], 50)}`): snapshot() calls made from another thread see an empty, inactive state", construct="context-local-state")
+    elif not plain:
+        rep.violation("R-STATE-GLOBAL", st, st.node, "state() does not return the module-level State object directly", construct="state-not-global")
+    else:
+        rep.ok("R-STATE-GLOBAL", st, rets[0], f"state() returns the module global `{rets[0].value.id}`")
+
+
+def site_keyed_store(repo: Repo, rep):
+    rep.rule(
+        "R-SITE-KEYED-STORE",
+        "per-evaluation data is never parked in a module-level container under a key coarser than the call site: in _inline_snapshot.py, _snapshot/ and "
+        "_adapter/ a subscript store `<module-level name>[k] = v` is allowed only when k is the call-site key of snapshot() (id(code), f_lasti); a cache "
+        "keyed by the source file / type hands the frame (globals, locals) or value of the first evaluation to every other call site",
+    )
+    n = 0
+    for g in repo.pkg_funcs():
+        rel = g.module.rel
+        if not (rel.startswith("_snapshot/") or rel.startswith("_adapter/") or rel == "_inline_snapshot.py"):
+            continue
+        for x in body_nodes(g.node):
+            if not isinstance(x, (ast.Assign, ast.AugAssign)):
+                continue
+            for t in x.targets if isinstance(x, ast.Assign) else [x.target]:
+                if isinstance(t, ast.Subscript) and isinstance(t.value, ast.Name) and t.value.id in g.module.globals_assigned and not _is_local(g, t.value.id):
+                    n += 1
+                    k = t.slice
+                    is_site_key = False
+                    if isinstance(k, ast.Name):
+                        for a in body_nodes(g.node):
+                            if isinstance(a, ast.Assign) and any(isinstance(tt, ast.Name) and tt.id == k.id for tt in a.targets):
+                                txt = norm(a.value)
+                                if "f_lasti" in txt and "f_code" in txt:
+                                    is_site_key = True
+                    if is_site_key:
+                        rep.ok("R-SITE-KEYED-STORE", g, x, "module-level table keyed by the call site")
+                    else:
+                        rep.violation(
+                            "R-SITE-KEYED-STORE",
+                            g,
+                            x,
+                            f"{g.qualname} stores per-evaluation data in the module-level `{t.value.id}` under the key `{short(k, 30)}`, which is not the call-site key: every later call site with the same key re-uses the first one's data (e.g. the frame whose globals/locals resolve the names in the snapshot)",
+                            construct=f"{g.qualname}:{t.value.id}",
+                        )
+    rep.count("module_level_subscript_stores", n)
+    if n == 0:
+        rep.ok("R-SITE-KEYED-STORE", repo.func("_inline_snapshot.py::snapshot"), None, "no module-level subscript store in per-call-site code", site="src/inline_snapshot/_inline_snapshot.py, _snapshot/*, _adapter/*: module-level stores")
